@@ -59,3 +59,110 @@ def ob_hash(tier):
     case = Case("location / feature equality and hashing", base, run,
                 dict(f1=f1, l1=l1, f2=f2, l2=l2, r1=r1, r2=r2, d1=d1, d2=d2), _rep)
     return [Case(f"{case.label} [d1={a} d2={b}]", base + [d1 == a, d2 == b], run, case.witness, _rep) for a in range(4) for b in range(4)]
+
+
+# ------------------------------------------------------------------ feature indexing over the whole IUPAC alphabet (E)
+IUPAC = "ACGTRYWSMKHBVDN"
+IUPAC_COMP = dict(zip("ACGTRYWSMKHBVDN", "TGCAYRWSKMDVBHN"))       # complement pairing of the nomenclature
+
+
+def check_iupac(rot, ss, f1, l1, f2, l2, rev, two, mixed):
+    """aseq[feature] / aseq[feature] = ... / reverse_complement on a sequence holding every IUPAC letter: reverse-strand
+    locations are reverse-complemented with the IUPAC pairing (per base)"""
+    from biotite.sequence import Location, Feature, Annotation, AnnotatedSequence, NucleotideSequence
+    S = Location.Strand
+    text = IUPAC[rot:] + IUPAC[:rot]
+    n = len(text)
+    rc = lambda s: "".join(IUPAC_COMP[c] for c in reversed(s))
+    strand = S.REVERSE if rev else S.FORWARD
+    locs = [Location(ss + f1, ss + l1, strand)]
+    if two:
+        locs.append(Location(ss + f2, ss + l2, (S.FORWARD if rev else S.REVERSE) if mixed else strand))
+    feat = Feature("CDS", locs, {"q": "v"})
+    aseq = AnnotatedSequence(Annotation([feat]), NucleotideSequence(text), sequence_start=ss)
+    if two and mixed:
+        # documented: a feature with locations on both strands cannot be used as an index
+        try:
+            aseq[feat]
+        except ValueError:
+            return None
+        return f"a feature with locations on both strands was accepted as index ({locs})"
+    got = str(aseq[feat])
+    parts = []
+    order = sorted(locs, key=lambda l: l.first)
+    if all(l.strand == S.REVERSE for l in locs):
+        order = sorted(locs, key=lambda l: l.last, reverse=True)
+    for l in order:
+        seg = text[l.first - ss: l.last - ss + 1]
+        parts.append(rc(seg) if l.strand == S.REVERSE else seg)
+    want = "".join(parts)
+    if got != want:
+        return f"aseq[feature] = {got}, per-base model {want} (sequence {text}, locations {locs})"
+    # complement / reverse complement of the sequence itself
+    if str(aseq.sequence.complement()) != "".join(IUPAC_COMP[c] for c in text) or str(aseq.sequence.reverse().complement()) != rc(text):
+        return f"complement of {text}: {aseq.sequence.complement()}"
+    # reverse complement of the annotated sequence: every base of every location keeps its (complemented) symbol
+    r = aseq.reverse_complement(sequence_start=ss)
+    if str(r.sequence) != rc(text):
+        return f"reverse_complement sequence {r.sequence}"
+    rfeat = list(r.annotation)[0]
+    if str(r[rfeat]) != want:
+        return f"feature of the reverse complement reads {r[rfeat]}, original feature {want}"
+    back = r.reverse_complement(sequence_start=ss)
+    if str(back.sequence) != text or back.annotation != aseq.annotation or back.sequence_start != ss:
+        return "reverse complement twice does not restore the original"
+    # assignment through the feature, read back and per base
+    new = (IUPAC * 2)[3: 3 + len(want)]
+    aseq[feat] = NucleotideSequence(new, ambiguous=True)
+    if str(aseq[feat]) != new:
+        return f"read after write through the feature: {aseq[feat]} vs {new}"
+    whole = str(aseq.sequence)
+    pos = 0
+    for l in order:
+        k = l.last - l.first + 1
+        seg = new[pos: pos + k]
+        pos += k
+        exp = rc(seg) if l.strand == S.REVERSE else seg
+        if whole[l.first - ss: l.last - ss + 1] != exp:
+            return f"assignment through {l}: bases {whole[l.first - ss: l.last - ss + 1]}, expected {exp}"
+    covered = {p for l in locs for p in range(l.first - ss, l.last - ss + 1)}
+    if any(whole[p] != text[p] for p in range(n) if p not in covered):
+        return "assignment through a feature changed bases outside it"
+    return None
+
+
+def ob_iupac(tier):
+    rot, ss, f1, l1, f2, l2, rev, two, mixed = z3.Ints("rot ss f1 l1 f2 l2 rev two mixed")
+    n = len(IUPAC)
+    starts = [1, 7, 2 ** 30]
+    base = [rot >= 0, rot < 5, ss >= 0, ss < 3, f1 >= 0, f1 <= l1, l1 < f2, f2 <= l2, l2 < n, l1 - f1 <= 4, l2 - f2 <= 4, f2 - l1 <= 3,
+            rev >= 0, rev <= 1, two >= 0, two <= 1, mixed >= 0, mixed <= 1, z3.Implies(two == 0, z3.And(mixed == 0, f2 == l1 + 1, l2 == f2))]
+
+    def run():
+        ex = cur()
+        c = ex.choose
+        a = c(f1, range(n))
+        b = c(l1, range(a, min(n, a + 5)))
+        t = c(two, (0, 1))
+        if t:
+            d = c(f2, range(b + 1, min(n, b + 4)))
+            e = c(l2, range(d, min(n, d + 5)))
+            m = c(mixed, (0, 1))
+        else:
+            if b + 1 >= n:
+                return True
+            d, e, m = b + 1, b + 1, 0
+        return check_iupac(3 * c(rot, range(5)), starts[c(ss, range(3))], a, b, d, e, c(rev, (0, 1)), t, m) is None
+
+    def rep(w):
+        try:
+            r = check_iupac(3 * w["rot"], starts[w["ss"]], w["f1"], w["l1"], w["f2"], w["l2"], w["rev"], w["two"], w["mixed"])
+            return r is None, str(r)
+        except Exception as e:
+            import traceback
+            return False, f"{type(e).__name__}: {e} | {traceback.format_exc()[-300:]}"
+    cases = []
+    for r_ in range(5):
+        cases.append(Case(f"feature indexing over the IUPAC alphabet [rotation {3 * r_}]", base + [rot == r_], run,
+                          dict(rot=rot, ss=ss, f1=f1, l1=l1, f2=f2, l2=l2, rev=rev, two=two, mixed=mixed), rep))
+    return cases
